@@ -214,3 +214,27 @@ def memoRun (o : Op) : MemoState → List Query → List (List Nat)
   | s, q :: qs => let r := memoStep o s q; r.2 :: memoRun o r.1 qs
 
 end Bls
+
+/-! ### Enumeration cost of `modulo` (C16)
+
+`Op.cost o d` = how many integers pass through `itertools.product` / `combinations_with_replacement` and through
+the iteration over leaf value sets while `o.modulo d` is computed without memoisation (memoisation can only
+lower it).  `min` / `max` enumerate nothing. -/
+namespace Bls
+
+def sumLens (ls : List (List Nat)) : Nat := (ls.map List.length).sum
+
+mutual
+def Op.cost : Op → Nat → Nat
+  | .leaf vs, _ => vs.length
+  | .pad c a, d => c.cost (Nat.lcm a d) + (c.modulo (Nat.lcm a d)).length
+  | .cat cs, d => costs cs d + sumLens (product (modulos cs d))
+  | .rep c k, d => c.cost d + sumLens (cwr (c.modulo d) (equivK k d))
+  | .rrep c k, d => c.cost d + sumLens ((List.range (equivK k d + 1)).flatMap fun j => cwr (c.modulo d) j)
+  | .uni cs, d => costs cs d + sumLens (modulos cs d)
+def costs : List Op → Nat → Nat
+  | [], _ => 0
+  | c :: cs, d => c.cost d + costs cs d
+end
+
+end Bls
